@@ -202,6 +202,19 @@ func (w *world) delegated(u, v int) *big.Int {
 	return val.TokensFromShares(del.GetShares()).TruncateInt().BigInt()
 }
 
+// unbondingVal returns a validator that has left the bonded set and is still unbonding (staking
+// can slash it for an earlier infraction: its delegators' claims were synchronised when it left
+// and must earn nothing for the time since), or -1.
+func (w *world) unbondingVal() int {
+	stk := w.tApp.GetStakingKeeper()
+	for v := 0; v < nVals; v++ {
+		if val, ok := stk.GetValidator(w.ctx, w.valAddr(v)); ok && val.IsUnbonding() && val.GetTokens().IsPositive() {
+			return v
+		}
+	}
+	return -1
+}
+
 func (w *world) genOpDeleg(r *Rng, s *snap, step int) op {
 	switch step {
 	case 0:
@@ -216,6 +229,10 @@ func (w *world) genOpDeleg(r *Rng, s *snap, step int) op {
 		u = 3 + r.Intn(2)
 	}
 	v := r.Intn(nVals)
+	if ub := w.unbondingVal(); ub >= 0 && step > 8 && r.Chance(1, 10) {
+		// slashed while unbonding, usually some blocks after it left the bonded set
+		return op{Kind: "val-slash", P: ub, A: []string{"0.01", "0.05", "0.000001", "0.3", "0.5"}[r.Intn(5)]}
+	}
 	switch r.Pick(24, 22, 12, 8, 14, 9, 4, 3, 2, 2) {
 	case 0:
 		return op{Kind: "block", Dt: w.genBlockDt(r)}
